@@ -28,17 +28,30 @@ def _children(fs, root):
     return files, dirs
 
 
-def _excluded(rel, patterns):
+def _pat_match(rel, pat):
+    """one rsync filter pattern against a path relative to the transfer root (directories: callers pass every ancestor)"""
+    import fnmatch
+
+    pat = pat.rstrip('/')
+    if pat.startswith('/'):  # anchored at the transfer root
+        return fnmatch.fnmatchcase(rel, pat[1:])
+    if '/' in pat:  # matched against the tail of the path
+        parts, want = rel.split('/'), pat.split('/')
+        return len(parts) >= len(want) and fnmatch.fnmatchcase('/'.join(parts[-len(want):]), pat)
+    return fnmatch.fnmatchcase(rel.split('/')[-1], pat)
+
+
+def _excluded(rel, rules):
+    """rsync filter rules [('+'|'-', pattern)], first match wins, checked for every ancestor directory first (an excluded
+    directory is not entered); no matching rule = included"""
     parts = rel.split('/')
-    for pat in patterns:
-        if pat.startswith('/'):  # anchored at the transfer root
-            if rel == pat[1:] or rel.startswith(pat[1:] + '/'):
-                return True
-        elif '/' in pat:
-            if rel == pat or rel.endswith('/' + pat) or ('/' + pat + '/') in ('/' + rel + '/'):
-                return True
-        elif pat in parts:
-            return True
+    for n in range(1, len(parts) + 1):
+        sub = '/'.join(parts[:n])
+        for kind, pat in rules:
+            if _pat_match(sub, pat):
+                if kind == '-':
+                    return True
+                break
     return False
 
 
@@ -105,9 +118,13 @@ class ModelShell:
         it = iter(args)
         for a in it:
             if a == '--exclude':
-                excludes.append(next(it))
+                excludes.append(('-', next(it)))
             elif a.startswith('--exclude='):
-                excludes.append(a.split('=', 1)[1])
+                excludes.append(('-', a.split('=', 1)[1]))
+            elif a == '--include':
+                excludes.append(('+', next(it)))
+            elif a.startswith('--include='):
+                excludes.append(('+', a.split('=', 1)[1]))
             elif a.startswith('--link-dest='):
                 self.link_dest = a.split('=', 1)[1].rstrip('/')
             elif a in ('--checksum', '-c'):
